@@ -706,6 +706,58 @@ def first_hour_missing():
     return sc
 
 
+def zero_underlying_steps(ctx, reqs):
+    """update() on a state whose due, in-the-money position is quoted with an underlying price of 0 (outside the data contract
+    `underlying > 0` of ASSUMPTIONS): `_deliver_option` divides by it — decimal.DivisionByZero on a Decimal token price (row gone from the
+    book), decimal.InvalidOperation on a float (numpy inf -> Decimal('Infinity') -> quantize).  The model (`stepE`/`updateE`,
+    Demeter/Deribit/Guard.lean) answers the same class and the same state: the due positions in front of the offending one are paid,
+    nothing is removed.  Theorems about `update` carry the guard `SettleGuard` (Proofs/C16/Guard.lean)."""
+    rng = ctx.rng
+    def ins(name, kind, strike, expiry, under, mark=0.05):
+        return {"name": name, "state": "open", "kind": kind, "strike": strike, "expiry": expiry, "mark": mark, "underlying": under,
+                "delta": 0.5, "gamma": 0.001, "asks": [[0.06, 5]], "bids": [[0.04, 5]]}
+    def pos(name, kind, strike, expiry, amount):
+        return {"name": name, "expiry": expiry, "strike": strike, "kind": kind, "amount": str(amount)}
+    for variant in ("float-row", "decimal-price", "float-price", "otm-zero", "not-due-zero", "off-grid-zero", "first-zero"):
+        for _ in range(ctx.scale(2, 30)):
+            strike = rng.choice((1500, 1600, 1650))
+            amt = rng.choice((1, 2, 5))
+            now = 120 if variant != "off-grid-zero" else 121
+            exp_bad = 60 if variant != "not-due-zero" else 600
+            lead = ins("ETH-A-%d-C" % (strike - 100), "CALL", strike - 100, 60, 1716.0)
+            # the offending position: a put (in the money at underlying 0 whatever the strike); `otm-zero`: a call (strike > 0 = underlying, out of the money)
+            bad_kind = "CALL" if variant == "otm-zero" else "PUT"
+            bad = ins("ETH-B-%d-%s" % (strike, bad_kind[0]), bad_kind, strike, exp_bad, 0.0)
+            tail = ins("ETH-Z-%d-C" % (strike - 50), "CALL", strike - 50, 60, 1716.0)
+            positions = [pos(lead["name"], "CALL", strike - 100, 60, amt), pos(bad["name"], bad_kind, strike, exp_bad, amt),
+                         pos(tail["name"], "CALL", strike - 50, 60, amt)]
+            if variant == "first-zero":
+                positions = [positions[1], positions[0], positions[2]]
+            if variant in ("decimal-price", "float-price"):
+                book, price = [lead, tail], (Decimal(0) if variant == "decimal-price" else 0.0)
+            else:
+                book, price = [lead, bad, tail], 1716.0
+            rig = L.Rig(book, now=now, cash=Decimal(1), positions=positions, price=price)
+            S = L.dump_state(rig)
+            n0 = len(rig.actions)
+            out, res = L.apply_op(rig, {"type": "update"})
+            S2 = L.dump_state(rig)
+            acts = [L.dump_action(a) for a in rig.actions[n0:]]
+            raises = variant in ("float-row", "decimal-price", "float-price", "first-zero")
+            ctx.case(f"update:zero-underlying:{variant}:{out}", {"variant": variant})
+            rep = {"zero_underlying": variant, "strike": strike, "amount": amt}
+            held = [p["key"] for p in S2["positions"]]
+            if raises:
+                want_cls = "DivisionByZero" if variant == "decimal-price" else "InvalidOperation"
+                if out != want_cls:
+                    ctx.disagree(f"update() with a due in-the-money position at underlying 0 ({variant}): expected {want_cls}, impl {out}", rep)
+                elif held != [p["name"] for p in positions]:
+                    ctx.disagree(f"update() raised {out} ({variant}) but the positions changed: {held}", rep)
+            elif out != "ok":
+                ctx.disagree(f"update() ({variant}): underlying 0 on a position that is not settled in the money, impl raised {out}", rep)
+            reqs.append((f"zero-underlying:{variant}", L.step_request(S, {"type": "update"}), out, res, S2, acts, rep))
+
+
 def run(ctx: Ctx):
     reqs = []
     scs = (directed() + coarse_gap() + [first_hour_missing()]) if not ctx.search else []
@@ -721,6 +773,14 @@ def run(ctx: Ctx):
         out = driver_json([r[0] for r in reqs], exe=L.EXE)
         for (req, sc, rec, balances, rep), ans in zip(reqs, out):
             compare(ctx, sc, rec, balances, ans, rep)
+    # the raising path of update(): underlying price 0 (step-wise, model `stepE`)
+    zreqs = []
+    if not ctx.search:
+        zero_underlying_steps(ctx, zreqs)
+    if ctx.driver_ok and zreqs:
+        answers = L.model_answers([r[1] for r in zreqs])
+        for (tag, req, out, res, S2, acts, rep), ans in zip(zreqs, answers):
+            L.compare_step(ctx, tag, None, None, out, res, S2, acts, ans, rep)
 
 
 def restore(sc):
@@ -746,6 +806,9 @@ def restore(sc):
 
 def replay(ctx: Ctx, case) -> bool:
     sub = Ctx(ctx.prop, ctx.tier, ctx.seed, False)
+    if "zero_underlying" in case:
+        zero_underlying_steps(sub, [])
+        return not sub.violations and not getattr(sub, "disagreements", [])
     run_one(sub, restore(case["scenario"]), [])
     for v in sub.violations:
         print("  ", v["key"], v["what"])
